@@ -1,7 +1,8 @@
 /-
 C04 model: the entity store's hierarchy maintenance.
 Mirrors cedar-policy-core/src/entities.rs (`from_entities`, `add_entities`, `upsert_entities`,
-`remove_entities`, `update_entity_map`, the three `TCComputation` modes) and
+`remove_entities`, `update_entity_map`, the three `TCComputation` modes; `upsert_entities` as REPAIRED in /repo:
+the collection is deduped first (`dedupLastAtFirstPos`), `upsertEntitiesPreFix` is the code before the repair) and
 cedar-policy-core/src/transitive_closure.rs (`repair_tc`, `compute_tc_internal`, `add_ancestors`,
 `enforce_tc_and_dag`, `enforce_tc`, `enforce_dag_from_tc`, `enforce_dag_from_tc_for`) together with the
 `TCNode` impl of `Entity` (ast/entity.rs: `out_edges` = parents then indirect ancestors,
@@ -243,8 +244,40 @@ def upsertOne (st : Store α × List α) (e : α × Node α) : Store α × List 
     (set (st.1.map (fun kn => if kn.1 ≠ e.1 ∧ e.1 ∈ kn.2.out then (kn.1, stripUpsert e.1 old.out kn.2) else kn)) e.1 e.2,
      tinsert e.1 (st.1.foldl (fun t kn => if kn.1 ≠ e.1 ∧ e.1 ∈ kn.2.out then tinsert kn.1 t else t) st.2))
 
+/-- the second loop of `upsert_entities` (`for entity in batch { strip; touch; update_entity_map(.., true) }`)
+    followed by the `match tc_computation`. -/
+def upsertApply (mode : Mode) (s : Store α) (batch : List (α × Node α)) : Res (Store α) :=
+  finish mode true (batch.foldl upsertOne (s, [])).1 (batch.foldl upsertOne (s, [])).2
+
+/-- `position.entry(uid)`: the index recorded for `uid` (the map has at most one entry per uid) -/
+def posGet (pos : List (α × Nat)) (u : α) : Option Nat :=
+  match pos with
+  | [] => none
+  | (k, i) :: rest => if k = u then some i else posGet rest u
+
+/-- one iteration of the first loop of the repaired `upsert_entities` on the state (`batch`, `position`):
+    `Occupied(pos)` → `if let Some(slot) = batch.get_mut(pos) { *slot = entity }` (`List.set` is a no-op on an
+    index out of range, like the `if let`); `Vacant` → `pos.insert(batch.len()); batch.push(entity)`.
+    (Schema validation of every entity — repeated ones included — is not part of this model: C04 runs
+    without schema.) -/
+def dedupStep (st : List (α × Node α) × List (α × Nat)) (e : α × Node α) : List (α × Node α) × List (α × Nat) :=
+  match posGet st.2 e.1 with
+  | some i => (st.1.set i e, st.2)
+  | none => (st.1 ++ [e], st.2 ++ [(e.1, st.1.length)])
+
+/-- the first loop of the repaired `upsert_entities` (`batch` / `position`): a uid named several times in
+    the collection keeps only its LAST value, at the position of its FIRST occurrence -/
+def dedupLastAtFirstPos (es : List (α × Node α)) : List (α × Node α) := (es.foldl dedupStep ([], [])).1
+
+/-- `upsert_entities` AFTER /repo's fix: dedupe the collection, then apply every uid once. -/
 def upsertEntities (mode : Mode) (s : Store α) (es : List (α × Node α)) : Res (Store α) :=
-  finish mode true (es.foldl upsertOne (s, [])).1 (es.foldl upsertOne (s, [])).2
+  upsertApply mode s (dedupLastAtFirstPos es)
+
+/-- `upsert_entities` BEFORE /repo's fix (kept as the record of the defect
+    `C04-upsert-batch-repeated-uid-stale-ancestor`): the strip/update loop ran over the collection as given,
+    so a uid named twice was overwritten twice. -/
+def upsertEntitiesPreFix (mode : Mode) (s : Store α) (es : List (α × Node α)) : Res (Store α) :=
+  upsertApply mode s es
 
 /-! ### histories -/
 
@@ -267,6 +300,19 @@ def stepOp (s : Store α) (o : Op α) : Store α :=
   | .error _ => s
 
 def runOps (s : Store α) (ops : List (Op α)) : Store α := ops.foldl stepOp s
+
+/-- histories as the code BEFORE /repo's fix ran them (only `upsert` differs); used only to state the
+    recorded defect -/
+def applyOpPreFix (s : Store α) : Op α → Res (Store α)
+  | .upsert m es => upsertEntitiesPreFix m s es
+  | o => applyOp s o
+
+def stepOpPreFix (s : Store α) (o : Op α) : Store α :=
+  match applyOpPreFix s o with
+  | .ok s' => s'
+  | .error _ => s
+
+def runOpsPreFix (s : Store α) (ops : List (Op α)) : Store α := ops.foldl stepOpPreFix s
 
 /-! ### specification side -/
 
